@@ -1,3 +1,92 @@
+(* C05 — property theorems.  This file contains statements only; every proof is
+   `exact <lemma>` so that a statement cannot be weakened silently. *)
 From Coq Require Import ZArith List Bool.
-Require Import EmbossV.Bounds.Model.
-Lemma placeholder : True. Proof. exact I. Qed.
+Import ListNotations.
+Require Import EmbossV.Bounds.Model EmbossV.Bounds.Gate EmbossV.Bounds.Exec EmbossV.Bounds.Corollaries.
+Open Scope Z_scope.
+
+(* For every expression tree, every leaf environment G and every concrete environment r whose
+   integer leaves lie in G: the value lies in the inferred interval and congruence class. *)
+Theorem bounds_sound : forall G r e a v,
+  env_in G r -> bounds_of G e = Some a -> eval G r e = Some v -> in_ares a v.
+Proof. exact bounds_sound_lem. Qed.
+Print Assumptions bounds_sound.
+
+Theorem integer_bounds_sound : forall G r e a x,
+  env_in G r -> bounds_of G e = Some (AInt a) -> eval G r e = Some (VInt x) ->
+  ext_le a.(lo) (Fin x) /\ ext_le (Fin x) a.(hi) /\
+  match a.(md) with
+  | None => x = a.(mv)
+  | Some m => (x - a.(mv)) mod m = 0 \/ (m = 0 /\ x = a.(mv))
+  end.
+Proof. exact integer_bounds_sound_lem. Qed.
+Print Assumptions integer_bounds_sound.
+
+(* ir_util.constant_value is exact *)
+Theorem constant_value_exact : forall G r e c v,
+  env_in G r -> constant_value G e = Some c -> eval G r e = Some v -> v = c.
+Proof. exact constant_value_exact_lem. Qed.
+Print Assumptions constant_value_exact.
+
+(* an expression the compiler treats as constant (is_constant_type) has exactly that value *)
+Theorem constant_type_exact : forall G r e a v,
+  env_in G r -> bounds_of G e = Some a -> ares_is_constant a = true -> eval G r e = Some v ->
+  match a with
+  | AInt i => v = VInt i.(mv)
+  | ABool (Some b) => v = VBool b
+  | AEnum (Some z) => v = VEnum z
+  | _ => False
+  end.
+Proof. exact constant_type_exact_lem. Qed.
+Print Assumptions constant_type_exact.
+
+Theorem upper_bound_true : forall G r a u x,
+  env_in G r -> eval G r (EUpper a) = Some (VInt u) -> eval G r a = Some (VInt x) -> x <= u.
+Proof. exact upper_bound_true_lem. Qed.
+Print Assumptions upper_bound_true.
+
+Theorem lower_bound_true : forall G r a u x,
+  env_in G r -> eval G r (ELower a) = Some (VInt u) -> eval G r a = Some (VInt x) -> u <= x.
+Proof. exact lower_bound_true_lem. Qed.
+Print Assumptions lower_bound_true.
+
+(* leaf ranges of _set_integer_constraints_from_physical_type *)
+Theorem leaf_uint_sound : forall w x, 0 <= w -> 0 <= x < 2 ^ w -> in_aval (leaf_aval KUInt (Some w)) x.
+Proof. exact leaf_uint_sound_lem. Qed.
+Theorem leaf_int_sound : forall w x,
+  1 <= w -> - 2 ^ (w - 1) <= x < 2 ^ (w - 1) -> in_aval (leaf_aval KInt (Some w)) x.
+Proof. exact leaf_int_sound_lem. Qed.
+Theorem leaf_unknown_size_sound : forall k x, in_aval (leaf_aval k None) x.
+Proof. exact leaf_unknown_size_sound_lem. Qed.
+
+(* the 64-bit gate *)
+Theorem gate_fits : forall G e n,
+  gate G e = true -> rt_node G e n ->
+  exists sg, Forall (clause_fits G sg) (n :: children n).
+Proof. exact Gate.gate_fits. Qed.
+Print Assumptions gate_fits.
+
+Theorem gate_cpp_type : forall G e n,
+  gate G e = true -> rt_node G e n ->
+  exists sg, Forall (clause_fits G sg) (n :: children n) /\
+             forall mn mx, fits sg mn mx = true ->
+                           exists t, cpp_type_for_range mn mx = Some t /\
+                                     cpp_type_lo t <= mn /\ mx <= cpp_type_hi t.
+Proof. exact gate_cpp_type_lem. Qed.
+Print Assumptions gate_cpp_type.
+
+Theorem cpp_type_for_range_contains : forall mn mx t,
+  cpp_type_for_range mn mx = Some t -> cpp_type_lo t <= mn /\ mx <= cpp_type_hi t.
+Proof. exact Gate.cpp_type_for_range_contains. Qed.
+
+(* Finding F18: "the pass's own assertions never fire" is false of the faithful model. *)
+Theorem assert_never_fires_refuted :
+  exists G e, (exists k w, forall i, G i = leaf_aval k (Some w)) /\ analyze G e = None.
+Proof. exact assert_never_fires_refuted_lem. Qed.
+
+(* the hypotheses above are satisfiable by a non-trivial instance *)
+Example example_nonvacuous :
+  env_in ex_G ex_r /\
+  bounds_of ex_G ex_e = Some (AInt (mk_aval (Fin 2) (Fin 1275) (Some 1) 0)) /\
+  eval ex_G ex_r ex_e = Some (VInt 802) /\ gate ex_G ex_e = true /\ rt_node ex_G ex_e ex_e.
+Proof. exact example_nonvacuous_lem. Qed.
